@@ -25,9 +25,9 @@ SIDES = ('onesided', 'twosided', 'centerdc')
 def bounds(tier):
     if tier == 'quick':
         return {'NFFT': '2..9', 'depth': 3, 'events': 'sides in {onesided (real only), twosided, centerdc, default}',
-                'vectors': 'e_i, e_i+e_j, ones, all-distinct', 'helpers_len': '2..9', 'arma2psd_NFFT': '3..9', 'estimator_objects': 'pburg, Periodogram x real/complex x NFFT 12..15'}
+                'vectors': 'e_i, e_i+e_j, ones, all-distinct', 'helpers_len': '2..9', 'arma2psd_NFFT': '3..9', 'estimator_objects': 'pburg, Periodogram x real/complex x NFFT 12..15', 'wide_range': 'every NFFT in 18..129 x sampling in {1, 10, 8000, 44100} x single conversions'}
     return {'NFFT': '2..17', 'depth': 5, 'events': 'sides in {onesided (real only), twosided, centerdc, default}',
-            'vectors': 'e_i, e_i+e_j, ones, all-distinct', 'helpers_len': '2..17', 'arma2psd_NFFT': '3..17', 'estimator_objects': 'pburg, Periodogram x real/complex x NFFT 12..33'}
+            'vectors': 'e_i, e_i+e_j, ones, all-distinct', 'helpers_len': '2..17', 'arma2psd_NFFT': '3..17', 'estimator_objects': 'pburg, Periodogram x real/complex x NFFT 12..33', 'wide_range': 'every NFFT in 18..417 x sampling in {1, 10, 8000, 44100} x single conversions'}
 
 
 def expected_clauses(tier):
@@ -49,6 +49,8 @@ def shards(tier):
         out.append(('helpers', L))
     for NFFT in range(3, hi + 1):
         out.append(('arma', NFFT))
+    for lo in range(18, 130 if tier == 'quick' else 420, 16):
+        out.append(('wide', lo, lo + 16))          # every NFFT of a wide range x 3 sampling rates, single conversions (float edge cases of the axes)
     return out
 
 
@@ -163,6 +165,11 @@ def run_shard(desc, R, tier):
         base = 100.0 + np.arange(L)
         for off in list(range(-L - 1, L + 2)) + [float(L // 2), L / 2.0]:
             eval_point({'kind': 'cshift', 'v': base, 'offset': off}, R)
+    elif desc[0] == 'wide':
+        for NFFT in range(desc[1], desc[2]):
+            for dt in ('real', 'complex'):
+                for fs in (1.0, 8000.0, 44100.0, 10.0):
+                    eval_point({'kind': 'wide', 'dtype': dt, 'NFFT': NFFT, 'fs': fs}, R)
     elif desc[0] == 'arma':
         NFFT = desc[1]
         coefs = [None, [0.5], [-0.9], [0.5, -0.3], [0.5j], [0.3 + 0.4j, -0.2]]
@@ -293,6 +300,36 @@ def eval_point(pt, R):
         R.check(close(got, exp, ULP4, 0.0), 'helper', feats, pt, got, exp,
                 'tools.%s does not carry values to the entry with the same frequency' % name, outs=(got, name),
                 err=relerr(got, exp), model_ctx={'inp': inp})
+    elif kind == 'wide':
+        from spectrum.psd import Spectrum
+        dt, NFFT, fs = pt['dtype'], int(pt['NFFT']), float(pt['fs'])
+        dflt = default_sides(dt)
+        L = len(rs.bins(dflt, NFFT))
+        v0 = 100.0 + np.arange(L)
+        data = np.arange(1.0, NFFT + 1.0) * (1.0 if dt == 'real' else (1 + 1j))
+        feats = {'dtype': dt, 'nfft': 'odd' if NFFT % 2 else 'even', 'range': 'wide'}
+        R.point(pt)
+        admissible = SIDES if dt == 'real' else SIDES[1:]
+        for t in admissible:
+            R.calls(3)
+            try:
+                s1 = Spectrum(data, NFFT=NFFT, sampling=fs)
+                s1.psd = v0.copy()
+                got = np.asarray(s1.get_converted_psd(t), dtype=float)
+                fr = np.asarray(s1.frequencies(t), dtype=float)
+                s1.sides = t
+                stored = np.asarray(s1.psd, dtype=float)
+                fr2 = np.asarray(s1.frequencies(), dtype=float)
+            except Exception as e:
+                R.viol('no_exception', dict(feats, to=t, exc=type(e).__name__), pt, repr(e), None, 'conversion raised')
+                continue
+            exp = rs.convert(v0, dflt, t, NFFT)
+            ax = rs.axis(t, NFFT, fs)
+            R.check(got.shape == exp.shape and close(got, exp, ULP4, 0.0) and stored.shape == exp.shape and close(stored, exp, ULP4, 0.0), 'getconv', dict(feats, to=t), pt, got, exp,
+                    'conversion to %s != direct conversion of the original PSD (NFFT %d, sampling %g)' % (t, NFFT, fs), outs=(got, t))
+            R.check(len(fr) == len(exp) and len(fr2) == len(exp), 'length', dict(feats, to=t), pt, [len(fr), len(fr2)], len(exp), 'len(frequencies) != len(converted psd)')
+            if len(fr) == len(ax):
+                R.check(close(fr, ax, 1e-12, 1e-15 * fs), 'axis', dict(feats, axis=t), pt, fr, ax, 'frequencies(%s) is not the k*sampling/NFFT grid' % t)
     elif kind == 'helper_odd':
         # one-sided PSD of an odd NFFT (no Nyquist entry): documented flag odd=True, given as bool / numpy.bool_ / 1
         from spectrum import tools
